@@ -9,7 +9,10 @@
 (*   SharedWriteOnce : after the run the shared state (loaded grammars and  *)
 (*       their tables, token collections, rule registries, module globals)  *)
 (*       is structurally the fully initialised state - and when it was      *)
-(*       already initialised before the run it did not change at all.       *)
+(*       already initialised before the run it did not change at all; and   *)
+(*       no interpreter-wide setting (recursion limit, switch interval, gc) *)
+(*       differs from its value before the run at any yield point of any    *)
+(*       thread (envchanged = names of the settings seen changed).          *)
 (***************************************************************************)
 EXTENDS Naturals, Sequences, FiniteSets, TLC, Json
 Batch == JsonDeserialize("batch.json")
@@ -21,6 +24,7 @@ Verdict(tr) ==
   ELSE IF \E i \in 1..Len(tr.events) : tr.events[i].digest # tr.events[i].fresh THEN "ResultIsFunctionOfArgs"
   ELSE IF tr.fpAfter # tr.fpWarm THEN "SharedWriteOnce:final-state"
   ELSE IF tr.warm /\ tr.fpBefore # tr.fpAfter THEN "SharedWriteOnce:changed-after-first-use"
+  ELSE IF tr.envchanged # "" THEN "SharedWriteOnce:interpreter-setting-changed-during-calls"
   ELSE "ok"
 VARIABLES tid, nacc, nrej
 vars == <<tid, nacc, nrej>>
